@@ -124,10 +124,11 @@ namespace
     struct Companion
     {
         std::atomic<bool> stop { false };
-        std::thread th;
+        std::thread th[2];
+        int filler = -1;
         std::mutex m;
         std::string error;
-        unsigned long answered = 0;
+        std::atomic<unsigned long> answered { 0 };
 
         static const std::string& request()
         {
@@ -138,52 +139,52 @@ namespace
         }
         void start(uint16_t port, const std::string& want)
         {
-            th = std::thread([this, port, want] {
-                int fds[2] = { -1, -1 };
-                int filler = -1;
-                fds[0]     = net::connect_loopback(port);
-                fds[1]     = net::connect_loopback(port);
-                if (fds[0] >= 0 && fds[1] >= 0 && (fds[0] % 2) == (fds[1] % 2))
-                {
-                    // same parity: burn one descriptor number and reconnect the second
-                    ::close(fds[1]);
-                    filler = ::dup(0);
-                    fds[1] = net::connect_loopback(port);
-                }
-                std::string carry[2];
-                for (unsigned i = 0; !stop && fds[0] >= 0 && fds[1] >= 0; ++i)
-                {
-                    int k = int(i % 2);
-                    net::Message r;
-                    std::string err;
-                    if (!net::send_all(fds[k], request()) || !net::read_message(fds[k], carry[k], true, r, 4000, err))
+            // both connections are opened here, so that their descriptor numbers can be compared; each then gets a
+            // thread of its own: the two workers parse the same kind of typed headers at the same moment
+            int fds[2] = { net::connect_loopback(port), net::connect_loopback(port) };
+            if (fds[0] >= 0 && fds[1] >= 0 && (fds[0] % 2) == (fds[1] % 2))
+            {
+                // same parity: burn one descriptor number and reconnect the second
+                ::close(fds[1]);
+                filler = ::dup(0);
+                fds[1] = net::connect_loopback(port);
+            }
+            for (int k = 0; k < 2; ++k)
+                th[k] = std::thread([this, want, fd = fds[k]] {
+                    std::string carry;
+                    for (unsigned i = 0; !stop && fd >= 0; ++i)
                     {
-                        std::lock_guard<std::mutex> g(m);
-                        error = "not answered: " + (err.empty() ? std::string("send failed") : err);
-                        break;
+                        net::Message r;
+                        std::string err;
+                        if (!net::send_all(fd, request()) || !net::read_message(fd, carry, true, r, 4000, err))
+                        {
+                            std::lock_guard<std::mutex> g(m);
+                            error = "not answered: " + (err.empty() ? std::string("send failed") : err);
+                            break;
+                        }
+                        if (r.status != 200 || r.body != want)
+                        {
+                            std::lock_guard<std::mutex> g(m);
+                            error = "answered " + std::to_string(r.status) + " \"" + printable(r.body, 80) + "\" instead of 200 \"" + want + "\"";
+                            break;
+                        }
+                        ++answered;
+                        if (i % 4 == 3)
+                            net::sleep_ms(1); // bursts of four, then a breath: it is company, not a load test
                     }
-                    if (r.status != 200 || r.body != want)
-                    {
-                        std::lock_guard<std::mutex> g(m);
-                        error = "answered " + std::to_string(r.status) + " \"" + printable(r.body, 80) + "\" instead of 200 \"" + want + "\"";
-                        break;
-                    }
-                    ++answered;
-                    if (i % 4 == 3)
-                        net::sleep_ms(1); // bursts of four, then a breath: it is company, not a load test
-                }
-                for (int fd : fds)
                     if (fd >= 0)
                         ::close(fd);
-                if (filler >= 0)
-                    ::close(filler);
-            });
+                });
         }
         std::string finish()
         {
             stop = true;
-            if (th.joinable())
-                th.join();
+            for (auto& t : th)
+                if (t.joinable())
+                    t.join();
+            if (filler >= 0)
+                ::close(filler);
+            filler = -1;
             std::lock_guard<std::mutex> g(m);
             return error;
         }
